@@ -84,6 +84,10 @@ func c20Gen(w *core.WorkerCtx, idx int) *c20Case {
 		if r.Intn(4) == 0 {
 			t.Job = "jb"
 		}
+		if r.Intn(10) == 0 {
+			// a body the probe's parser reads in several blocks (64 KiB each)
+			t.NSamples = 2500 + r.Intn(3000)
+		}
 		if lat > 0 {
 			t.Latency = r.Intn(lat + 1)
 		}
